@@ -98,7 +98,7 @@ def extra(ck, cfgs):
 
 
 def run(ck):
-    run_sched_property(ck, "C04", sched.oracle_c04, "Properties/C04.v", 100, 600, extra=extra)
+    run_sched_property(ck, "C04", sched.oracle_c04, "Properties/C04.v", 100, 600, analyzer=True, extra=extra)
     # extra theorem file dependency
     res, _ = common.coq_make(["SchedThms2.vo", "SchedMono.vo"])
     for t, (ok, err) in res.items():
